@@ -16,6 +16,7 @@ import itertools
 
 from lx.check import Obligation, Verdict
 from lx.engine import HarnessError, SymStr, Unsupported, eng, sym_value
+from lx.lifted import TWIN
 from checks.c15 import fork_bool, fork_choice
 
 PID = "C17"
@@ -73,13 +74,19 @@ class PathOb(Obligation):
     max_paths = 300000
     budget_s = 3000
 
-    def __init__(self, method, route, param, form, k, deep_root=False, lens=None, f_first=False):
+    def __init__(self, method, route, param, form, k, deep_root=False, lens=None, f_first=False, root_at=None):
         self.method, self.route, self.param, self.form, self.k, self.deep_root, self.lens = method, route, param, form, k, deep_root, lens
         self.f_first = f_first
+        # root_at: the configured SQL directory is the working directory itself ("cwd", what `sqllineage -g -f x.sql` sets up)
+        # or its parent ("parent"); segments may then also contain '~' (os.path.expanduser is part of the model)
+        self.root_at = root_at
+        self.alpha = SEG_ALPHA + ("~" if root_at else "")
+        # a single segment names the root directory itself or something outside it: no file may be opened on any path
+        self.vacuous_ok = param == "f" and k == 1 and not root_at
         fk = lambda x: "+".join(map(str, x)) if isinstance(x, tuple) else str(x)
         self.key = "%s%s/%s/%s/k%s%s%s%s" % (method, route or "/<path>", param or "-", fk(form), fk(k), "/deeproot" if deep_root else "",
                                            ("/len" + "".join("%d=%d," % kv for kv in sorted(lens.items()))) if lens else "",
-                                           "/f-first" if f_first else "")
+                                           "/f-first" if f_first else "") + (("/root=" + root_at) if root_at else "")
 
     def describe(self):
         return {"key": self.key, "method": self.method, "route": self.route, "param": self.param, "spelling": self.form,
@@ -125,7 +132,7 @@ class PathOb(Obligation):
             segs = []
             for i in range(k):
                 n = lens[i] if (lens and i in lens) else fork_choice("%slen%d" % (tag, i), 4)
-                segs.append(SymStr.var("%sseg%d" % (tag, i), n, SEG_ALPHA) if n else SymStr.const(""))
+                segs.append(SymStr.var("%sseg%d" % (tag, i), n, self.alpha) if n else SymStr.const(""))
             tail = SymStr.const("/").join(segs)
             if form == "rel":
                 return tail
@@ -145,15 +152,19 @@ class PathOb(Obligation):
         app = dr.SQLLineageApp()
         for path, h in dr.app.routes.items():
             app.routes[path] = h
-        if self.deep_root:
-            root = P.LxPath(SymStr.const(cwd + "/sub/") + rootname)
+        if self.root_at == "cwd":
+            root = P.LxPath(cwd)
+        elif self.root_at == "parent":
+            root = P.LxPath("/" + "/".join(P.CWD[:-1]))
+        elif self.deep_root:
+            root = P.LxPath(SymStr.const(cwd + "/zq/") + rootname)
         else:
             root = P.LxPath(SymStr.const(cwd + "/") + rootname)
         app.root_path = root
         dr.app.root_path = root
         status = []
         P.EVENTS.clear()
-        P.KNOWN_DIRS[:] = [P.LxPath(cwd), root]
+        P.KNOWN_DIRS[:] = [P.LxPath(cwd), root, P.LxPath(P.home())]
         if self.method == "POST":
             js = JsonShim(payload)
             dr.json = js
@@ -176,6 +187,9 @@ class PathOb(Obligation):
             raise
         except Exception as e:  # an internal error escaping the handler: not a disclosure, recorded for information
             escaped = type(e).__name__
+        if TWIN["on"]:       # sensitivity twin: the app opened a file outside what it may disclose
+            TWIN["n"] += 1
+            P.EVENTS.append(("open", P.LxPath("/etc/passwd")))
         bad = None
         for kind, p in list(P.EVENTS):
             if kind in ("open", "iterdir"):
@@ -185,7 +199,7 @@ class PathOb(Obligation):
         return Verdict(bad is None, {"method": self.method, "route": self.route, "param": self.param, "text": environ["PATH_INFO"] if self.method == "GET" else text,
                                      "payload": dict(payload) if self.method == "POST" else None,
                                      "rootname": rootname, "staticname": staticname if self.method == "GET" else None,
-                                     "deep_root": self.deep_root, "status": status[:1], "event": bad,
+                                     "deep_root": self.deep_root, "root_at": self.root_at, "status": status[:1], "event": bad,
                                      "escaped": escaped},
                        nontrivial=bool(P.EVENTS))
 
@@ -224,8 +238,13 @@ old = os.getcwd()
 os.chdir(CWD)
 try:
     import sqllineage.drawing as dr
-    rootdir = os.path.join(CWD, "sub", c["rootname"]) if c["deep_root"] else os.path.join(CWD, c["rootname"])
+    rootdir = os.path.join(CWD, "zq", c["rootname"]) if c["deep_root"] else os.path.join(CWD, c["rootname"])
+    if c.get("root_at") == "cwd": rootdir = CWD
+    if c.get("root_at") == "parent": rootdir = os.path.dirname(CWD)
     os.makedirs(rootdir, exist_ok=True)
+    HOME = SCRATCH + "/home"
+    os.makedirs(HOME, exist_ok=True)
+    os.environ["HOME"] = HOME
     with open(os.path.join(rootdir, "inside.sql"), "w") as f: f.write("select 1 from inside_tab")
     MARK = "MARKERZ9"
     text = c["text"]
@@ -267,6 +286,9 @@ try:
         payload = c["payload"]
         for prm, txt in payload.items():
             try:
+                if txt == "~" or txt.startswith("~/"):
+                    # what the spelling means to os.path.expanduser exists too (outside the root, with a marker)
+                    plant(HOME + txt[1:], prm == "d")
                 if prm == "d":
                     plant(txt, True)
                 elif c["route"] == "/directory":
@@ -355,6 +377,14 @@ def obligations(tier, seed):
                     obs.append(PathOb(m, r, p, form, 5, lens={0: v[0], 1: v[1], 2: v[2]}))
         obs.append(PathOb(m, r, p, "rel", 3, deep_root=True))
         obs.append(PathOb(m, r, p, "abs", 3, deep_root=True))
+        if m == "POST":
+            # the SQL directory is the working directory itself / its parent; '~' may occur in a segment
+            obs.append(PathOb(m, r, p, "rel", 2, root_at="cwd"))
+            obs.append(PathOb(m, r, p, "rel", 3, root_at="parent"))
+            if tier == "thorough":
+                obs.append(PathOb(m, r, p, "rel", 3, root_at="cwd"))
+                obs.append(PathOb(m, r, p, "abs", 3, root_at="cwd"))
+                obs.append(PathOb(m, r, p, "rel", 4, root_at="parent"))
         if tier == "thorough":
             obs.append(PathOb(m, r, p, "rel", 4, deep_root=True))
             obs.append(PathOb(m, r, p, "dslash", 4, deep_root=True))
